@@ -4,6 +4,7 @@ CONSTANTS
   UseCancel = FALSE
   ApiModes = {FALSE}
   UseSecond = FALSE
+  DropDelete = FALSE
   TestRng = TRUE
 SPECIFICATION Spec
 INVARIANT Inv_Fresh
